@@ -431,6 +431,30 @@ func cartGen(c *ctx) {
 		c.notes["mbc1_pairs"] = "7 sizes x 2 modes x (BANK2 values 0-7, f8-ff and every 37th) x all 256 BANK1 values"
 	}
 
+	// Part C2: the dump is taken repeatedly while every RAM bank is written in turn (a dump must not depend on
+	// when earlier dumps were taken), for every RAM-bearing family at every declared RAM size.
+	for _, t := range []int{0x03, 0x13, 0x1b, 0x1e, 0x10, 0x06} {
+		for ras := 0; ras <= 5; ras++ {
+			if r.reset(t, 2, ras, -1) != "ok" {
+				continue
+			}
+			r.w(0x0000, 0x0a)
+			r.w(0x6000, 0x01) // MBC1: RAM banking mode (ignored / latch elsewhere)
+			r.do("dump")
+			for pass := 0; pass < 2; pass++ {
+				for b := 0; b < 16; b++ {
+					r.w(0x4000, b)
+					r.w(0xa000+c.rng.intn(0x2000), 1+c.rng.intn(255))
+					if pass == 1 || b%3 == 0 {
+						r.do("dump")
+						r.classify("dump-seq", r.lastOut)
+					}
+				}
+			}
+			r.do("dump")
+		}
+	}
+
 	// Part D: seeded random histories.
 	nseq, maxLen := 1000, 60
 	if c.thorough() {
@@ -464,6 +488,9 @@ func cartGen(c *ctx) {
 				v = interesting[c.rng.intn(len(interesting))]
 			}
 			var out string
+			if c.rng.chance(6) {
+				r.do("dump")
+			}
 			switch k := c.rng.intn(10); {
 			case k < 5:
 				out = r.w(a, v)
